@@ -189,6 +189,19 @@ func propSuppression(c *Case) {
 			}
 			bErr := &buildErr{key: string(key), task: "seq", n: i}
 
+			// a failure is a failure whatever it wraps (a builder reading a second-level cache passes its miss on)
+			switch c.Weighted("error-kind", 5, 1, 1, 1, 1) {
+			case 1:
+				bErr.cause = cache.ErrNotFound
+				c.Class("failure-wraps-ErrNotFound")
+			case 2:
+				bErr.cause = cache.ErrExpired
+			case 3:
+				bErr.cause = context.Canceled
+			case 4:
+				bErr.cause = context.DeadlineExceeded
+			}
+
 			// caller context: may carry a TTL, may already be cancelled (a failure is a failure and
 			// must be cached all the same)
 			ctx, cancel := context.WithCancel(context.Background())
